@@ -383,6 +383,21 @@ RepayWithdraw(cfg, s, u, bid, env) ==
       r2 == Withdraw(cfg, r1.st, u, b0.lend, l.asset, b0.cin, env) IN
   IF r2.ok THEN r2 ELSE Fail(s)
 
+(* ---- MsgCalculateInterestAndRewards: every borrow of the user's lend positions accrues (errors skipped), then every lend *)
+(*      position is credited its reward in id order (an error there fails the message)                                    *)
+RECURSIVE CalcLends(_, _, _, _)
+CalcLends(cfg, s, lids, env) ==
+  IF lids = <<>> THEN Done(s)
+  ELSE LET r == Reward(cfg, s, Head(lids), RewOf(env, Head(lids))) IN
+       IF ~r.ok THEN Fail(s) ELSE CalcLends(cfg, r.st, Tail(lids), env)
+CalcInterest(cfg, s, u, env) ==
+  LET mine == SelectSeq(s.lends, LAMBDA l : l.o = u) IN
+  IF mine = <<>> THEN Fail(s) ELSE
+  LET s1 == [s EXCEPT !.borrows = [i \in 1..Len(s.borrows) |->
+                 IF ~s.borrows[i].liq /\ HasId(mine, s.borrows[i].lend) THEN [s.borrows[i] EXCEPT !.iT = IntOf(env, s.borrows[i])] ELSE s.borrows[i]]]
+      r == CalcLends(cfg, s1, [i \in 1..Len(mine) |-> mine[i].id], env)
+  IN IF r.ok THEN r ELSE Fail(s)
+
 (* ---- MsgFundModuleAccounts / MsgFundReserveAccounts ---- *)
 FundMod(cfg, s, u, p, a, da, amt) ==
   IF ~HasPool(cfg, p) \/ ~HasAsset(cfg, a) \/ da # a \/ ~HasUB(s, u, a) \/ UB(s, u, a).amt < amt THEN Fail(s)
